@@ -52,6 +52,9 @@ def proof_stage(rep, prop, theorems, cone_desc):
             if l.startswith('Axioms:'):
                 seen = True
                 continue
+            if l.startswith('Closed under'):
+                seen = False
+                continue
             if seen and l and not l[0].isspace():
                 axioms.append(l.split()[0])
         axioms = sorted(set(axioms))
